@@ -254,7 +254,7 @@ async fn run_case(dir: PathBuf, ops: Vec<String>) -> Vec<String> {
                         }
                         let mut rs = vec![];
                         for tk in tasks {
-                            rs.push(tokio::time::timeout(Duration::from_secs(5), tk).await.ok().and_then(|r| r.ok()).unwrap_or("noanswer".into()));
+                            rs.push(tokio::time::timeout(Duration::from_secs(20), tk).await.ok().and_then(|r| r.ok()).unwrap_or("noanswer".into()));
                         }
                         rs.join(",")
                     }
